@@ -217,7 +217,7 @@ def check(pid, tier, replay=None):
         from . import channel
         with ThreadPoolExecutor(max_workers=2) as ex:
             fs = ex.submit(run_pipeline, tier, None)
-            fc = ex.submit(channel.run_pipeline, tier, None)
+            fc = ex.submit(channel.run_pipeline, tier, None, "C02")
             stats, violations = fs.result()
             cstats, cviol = fc.result()
         violations = violations + cviol
